@@ -90,7 +90,12 @@ fn get_4digit_str(a_str: &str, iteration: u16) -> Cow<'_, str> {
             if needed_str > len_str {
                 Cow::Owned(format!("{}{:0len$}", a_str, iteration, len = 4 - len_str))
             } else {
-                Cow::Owned(format!("{}{}", &a_str[0..needed_str], iteration))
+                // the prefix must end at a char boundary (the tag might contain multi-byte chars)
+                let mut prefix_len = needed_str;
+                while !a_str.is_char_boundary(prefix_len) {
+                    prefix_len -= 1;
+                }
+                Cow::Owned(format!("{}{}", &a_str[0..prefix_len], iteration))
             }
         }
     }
